@@ -5,6 +5,10 @@ Clauses (all taken from the property statement)
   C15.deltas_block0                        block 0 along target_axis is the input, bit for bit
   C15.deltas_values                        block d (1..num_deltas) = Kaldi composite regression filter of order d
                                            applied along `axis` to the input whose edges are extended by the pad mode
+                                           -- EACH order sees the input extended by ITS OWN half-width d*context_window
+                                           in the chosen mode (modes whose fill depends on the pad width -- linear_ramp,
+                                           callables -- and modes with keyword arguments passed through Deltas(**kwargs)
+                                           -- end_values, stat_length -- are part of the grid)
   C15.stack_shape / C15.stack_dtype / C15.stack_values
                                            result[.., t, .., v*F+f] = padded[.., t*V+v, .., f]   (exact)
   C15.stack_2d_nd_agree                    a 2-D input and the same data with a singleton third axis agree exactly
@@ -15,7 +19,10 @@ Clauses (all taken from the property statement)
 
 Oracles are written from the statement: the Kaldi recursion for the filter coefficients by plain loops
 (scales_[i] from scales_[i-1]), an explicit index map for the edge extension (cross-checked against np.pad of an
-index vector = assumption A-NP-PAD) and explicit per-frame sums / per-(t,v) block assignments.  Nothing of
+index vector = assumption A-NP-PAD), closed forms for the value-generating modes (linear ramp towards end_values,
+mean / median / minimum / maximum of the first / last stat_length samples, and two width-dependent callables whose
+fill is written down separately from the callable handed to the library) and explicit per-frame sums / per-(t,v)
+block assignments.  Nothing of
 np.correlate / np.convolve / np.concatenate / np.stack / reshape is used to build an expected value.
 """
 import json
@@ -32,6 +39,23 @@ DTYPES = ("float64", "float32", "int16")
 LAYOUTS = ("C", "F", "strided")
 # (pad_mode, constant_values)
 DELTA_PADS = (("edge", None), ("constant", None), ("reflect", None), ("constant", 3))
+# (pad_mode, keyword arguments handed through Deltas(**kwargs) to numpy.pad).  The first group's fill VALUES depend on
+# the pad width (so padding once for the longest filter and cropping is NOT the same thing), the second group's only
+# through keyword arguments / statistics, the third are further index-map modes.
+DELTA_PADS_X = (
+    ("linear_ramp", {}),
+    ("linear_ramp", {"end_values": -2.0}),
+    ("callable:width_ramp", {}),
+    ("callable:width_level", {"scale": 0.5}),
+    ("mean", {}),
+    ("mean", {"stat_length": 2}),
+    ("median", {"stat_length": 3}),
+    ("maximum", {"stat_length": 2}),
+    ("minimum", {}),
+    ("symmetric", {}),
+    ("wrap", {}),
+)
+INDEX_MODES = ("edge", "constant", "reflect", "symmetric", "wrap")
 STACK_PADS = ((None, None), ("edge", None), ("constant", None), ("reflect", None), ("constant", 3))
 RTOL = 1e-9
 ULP32 = 2.0 ** -23
@@ -83,10 +107,15 @@ def _index_map(T, left, right, mode):
                 period = 2 * (T - 1)
                 m = p % period
                 out.append(m if m <= T - 1 else period - m)
+        elif mode == "symmetric":
+            m = p % (2 * T)
+            out.append(m if m < T else 2 * T - 1 - m)
+        elif mode == "wrap":
+            out.append(p % T)
         else:
             raise ValueError(mode)
     # A-NP-PAD conformance: np.pad on a plain index vector follows the same map
-    if T > 0 and mode in ("edge", "reflect"):
+    if T > 0 and mode in ("edge", "reflect", "symmetric", "wrap"):
         ref = np.pad(np.arange(T), (left, right), mode)
         if list(ref) != out:
             raise AssertionError(f"oracle index map disagrees with np.pad: T={T} l={left} r={right} {mode}")
@@ -102,6 +131,58 @@ def _extended(X, idx, cval):
         else:
             frames.append(X[i])
     return frames
+
+
+def _pad_callable(name):
+    """The callables handed to the library as pad_mode (numpy.pad protocol: fill `vector` in place).  Their fill
+    depends on the pad WIDTH; the oracle (_extended_values) writes the same fill down as a closed form."""
+
+    def width_ramp(vector, pad_width, iaxis, kwargs):
+        l, r = int(pad_width[0]), int(pad_width[1])
+        n = len(vector)
+        if l:
+            vector[:l] = vector[l] * (np.arange(1, l + 1) / (l + 1.0))
+        if r:
+            vector[n - r :] = vector[n - r - 1] * (np.arange(r, 0, -1) / (r + 1.0))
+
+    def width_level(vector, pad_width, iaxis, kwargs):
+        l, r = int(pad_width[0]), int(pad_width[1])
+        sc = float(kwargs.get("scale", 1.0))
+        if l:
+            vector[:l] = sc * l
+        if r:
+            vector[len(vector) - r :] = -sc * r
+
+    return {"width_ramp": width_ramp, "width_level": width_level}[name]
+
+
+def _extended_values(X, w, mode, kw, fill):
+    """X (float64) has the time axis first.  The list of T + 2w frames of X extended by w on both sides in `mode`
+    with keyword arguments `kw`, written from the documentation of the modes (numpy.pad) / of the callables."""
+    T = X.shape[0]
+    if mode in INDEX_MODES:
+        return _extended(X, _index_map(T, w, w, mode), fill)
+    first, last = X[0], X[T - 1]
+    if mode == "linear_ramp":
+        e = float(kw.get("end_values", 0.0))
+        left = [e + (first - e) * (i / float(w)) for i in range(w)]
+        right = [e + (last - e) * ((w - 1 - j) / float(w)) for j in range(w)]
+    elif mode in ("mean", "median", "minimum", "maximum"):
+        s = kw.get("stat_length")
+        s = T if s is None else min(int(s), T)
+        f = {"mean": np.mean, "median": np.median, "minimum": np.min, "maximum": np.max}[mode]
+        lv, rv = f(X[:s], axis=0), f(X[T - s :], axis=0)
+        left, right = [lv] * w, [rv] * w
+    elif mode == "callable:width_ramp":
+        left = [first * ((i + 1) / (w + 1.0)) for i in range(w)]
+        right = [last * ((w - j) / (w + 1.0)) for j in range(w)]
+    elif mode == "callable:width_level":
+        sc = float(kw.get("scale", 1.0))
+        left = [np.full(X.shape[1:], sc * w)] * w
+        right = [np.full(X.shape[1:], -sc * w)] * w
+    else:
+        raise ValueError(mode)
+    return [np.asarray(v, dtype=np.float64) for v in left] + [X[i] for i in range(T)] + [np.asarray(v, dtype=np.float64) for v in right]
 
 
 def _kaldi_scales(order, window):
@@ -132,11 +213,15 @@ def _check_deltas(case):
     concat = bool(case["concatenate"])
     mode, cval = case["pad_mode"], case.get("constant_values")
     in_place = bool(case.get("in_place", False))
-    kwargs = {} if cval is None else {"constant_values": cval}
+    pad_kw = dict(case.get("pad_kwargs") or {})
+    kwargs = dict(pad_kw)
+    if cval is not None:
+        kwargs["constant_values"] = cval
+    lib_mode = _pad_callable(mode.split(":", 1)[1]) if mode.startswith("callable:") else mode
     try:
         with warnings.catch_warnings():
             warnings.simplefilter("ignore")
-            op = Deltas(nd, target_axis=target, concatenate=concat, context_window=W, pad_mode=mode, **kwargs)
+            op = Deltas(nd, target_axis=target, concatenate=concat, context_window=W, pad_mode=lib_mode, **kwargs)
             res = op.apply(x, axis=axis, in_place=in_place)
     except Exception as e:  # noqa
         clause = "C15.deltas_input_unmodified" if "read-only" in str(e) else "C15.deltas_raises"
@@ -191,7 +276,7 @@ def _check_deltas(case):
             off = (len(filt) - 1) // 2
             assert off == d * W
             fmax = max(abs(c) for c in filt)  # coefficients carry ABSOLUTE round-off ~ eps * fmax (true centre tap of odd orders is 0)
-            frames = _extended(X, _index_map(T, off, off, mode), fill)
+            frames = _extended_values(X, off, mode, pad_kw, fill)  # extended by THIS order's half-width
             got = np.moveaxis(res[slot(d)], a, 0)
             for t in range(T):
                 acc = np.zeros(X.shape[1:], dtype=np.float64)
@@ -375,7 +460,10 @@ def _delta_cases(tier, seed):
         nonlocal k
         k += 1
         shape, axis, target, concat = struct
-        pad = pad if pad is not None else DELTA_PADS[int(rng.integers(len(DELTA_PADS)))]
+        if pad is None:
+            allp = DELTA_PADS + DELTA_PADS_X
+            pad = allp[int(rng.integers(len(allp)))]
+        pad_kw = dict(pad[1]) if isinstance(pad[1], dict) else {}
         return {
             "op": "deltas",
             "shape": list(shape),
@@ -386,7 +474,8 @@ def _delta_cases(tier, seed):
             "num_deltas": int(rng.integers(0, 4)) if nd is None else nd,
             "context_window": int(rng.integers(1, 4)) if W is None else W,
             "pad_mode": pad[0],
-            "constant_values": pad[1],
+            "constant_values": None if isinstance(pad[1], dict) else pad[1],
+            "pad_kwargs": pad_kw,
             "layout": layout or LAYOUTS[int(rng.integers(3))],
             "in_place": bool(rng.integers(4) == 0) if in_place is None else in_place,
             "seed": int(seed) * 1000003 + k,
@@ -399,6 +488,14 @@ def _delta_cases(tier, seed):
             for W in (1, 2, 3):
                 for pad in DELTA_PADS:
                     yield mk((shape, axis, target, concat), nd, W, pad, DTYPES[(nd + W) % 3], "C", False)
+    # core 2: pad modes whose fill depends on the pad width / on keyword arguments passed through Deltas(**kwargs),
+    # with num_deltas >= 2 so that several orders (half-widths W, 2W, 3W) coexist; incl. a time axis shorter than the
+    # half-width of the higher orders
+    for shape, axis, target, concat in (((7, 3), 0, 1, True), ((2, 6), 1, 0, False), ((3,), 0, 0, False), ((2, 5, 3), -2, -1, True), ((1, 2), 0, -1, True)):
+        for nd in (2, 3, 1):
+            for W in (1, 2, 3):
+                for pad in DELTA_PADS_X:
+                    yield mk((shape, axis, target, concat), nd, W, pad, DTYPES[(nd + W) % 3], LAYOUTS[(nd + W) % 3], False)
     core_shapes = {1: [(5,), (1,)], 2: [(5, 3), (1, 4)], 3: [(2, 5, 3), (3, 1, 2)], 4: [(2, 3, 5, 2)]}
     for rank, shapes in core_shapes.items():
         for shape in shapes:
@@ -491,12 +588,14 @@ def run(tier: str, seed: int) -> dict:
     col.note(f"cases: deltas {counts['deltas']}, stack {counts['stack']} (each 2-D stack case also runs 3 singleton-axis N-D twins)")
     col.note(f"worst float64 delta error relative to max|filt| * sum|x| over the filter support: {worst:.3g} (tolerance {RTOL:g}); float32 adds one float32 ulp; int16 must equal trunc of the exact value (both neighbours accepted only when the exact value is within tolerance of an integer)")
     return col.result(
-        rule="Deltas: case = (shape, dtype, axis, target_axis, concatenate, num_deltas, context_window, pad mode[, constant value], memory layout, in_place); "
+        rule="Deltas: case = (shape, dtype, axis, target_axis, concatenate, num_deltas, context_window, pad mode[, constant value / keyword arguments], memory layout, in_place); "
         "non-trivial when the input is non-empty and num_deltas >= 1. Stack: case = (shape, dtype, axis, time_axis, num_vectors, pad mode, layout, in_place); "
-        "non-trivial when the result is non-empty. Fixed core first (all num_deltas x window x pad on six shapes; all axis/target pairs on one asymmetric shape per rank; "
+        "non-trivial when the result is non-empty. Fixed core first (all num_deltas x window x index-map pad on six shapes; num_deltas 1..3 x window x "
+        "width-/kwargs-dependent pad (linear_ramp, callables, mean/median/min/max with stat_length, symmetric, wrap) on five shapes; all axis/target pairs on one asymmetric shape per rank; "
         "Stack: all V x pad x in_place on ten shapes), then a seeded shuffle of the full structural grid, ranks interleaved, until the time budget.",
         bound="BOUNDED: ranks 1..4 (Stack 2..4), extents from {0,1,2,3,5(,7,8)} with 0 only on non-filtered axes for Deltas, num_deltas 0..3, context windows 1..3, "
-        "pad modes edge/constant(0 and 3)/reflect (+ none for Stack), num_vectors 1..4, float64/float32/int16, C/F/strided layouts; "
+        "pad modes edge/constant(0 and 3)/reflect (+ none for Stack; Deltas also linear_ramp with/without end_values, two width-dependent callables, "
+        "mean/median/maximum/minimum with/without stat_length, symmetric, wrap), num_vectors 1..4, float64/float32/int16, C/F/strided layouts; "
         f"every point of the structural grid (shape, axes, concatenate / num_vectors, pad) gets ONE seeded choice of the other parameters; time-boxed ({budget:.0f} s), see notes for whether the grid was finished",
         assumptions=ASSUMPTIONS,
     )
